@@ -230,7 +230,7 @@ def run_abort(case, chooser):
                     r = rig.ev(0, "RETR f")
                     cs = [c for c, _ in (r or [])]
                     served = cs == ["150", "226"] and bytes(d2.received) == payload(size)
-                    if not (served or cs == ["425"]) or s.closed():
+                    if not (served or cs in (["425"], ["150", "425"])) or s.closed():
                         problems.append({"kind": "followup-transfer-on-connection-made-in-advance", "codes": cs,
                                          "data": bytes(d2.received).decode("latin-1"), "session_closed": s.closed()})
                     r = rig.ev(0, "PWD")
